@@ -476,6 +476,7 @@ func (db *SingleBucketBackend) deleteObjectLocked(bucketName, objectName string)
 	if err := db.fs.Remove(filepath.FromSlash(objectName)); err != nil && !os.IsNotExist(err) {
 		return err
 	}
+	removeEmptyDirs(db.fs, "", path.Dir(objectName))
 	if err := db.metaStore.deleteMeta(db.metaStore.metaPath(bucketName, objectName)); err != nil {
 		return err
 	}
